@@ -75,7 +75,8 @@ def h_step(ka: int, kb: int, ra: int, rb: int, da: int, db: int, oa: int, ob: in
     """
     vkopf.begin_path()
     c = vkopf.cell()
-    ka, kb = vkopf.pin('ka', ka), vkopf.pin('kb', kb)
+    ka, kb, base, listed = vkopf.pin('ka', ka), vkopf.pin('kb', kb), vkopf.pin('base', base), vkopf.pin('listed', listed)
+    da, db, ob = vkopf.pin('da', da), vkopf.pin('db', db), vkopf.pin('ob', ob)
     ra, rb = vkopf.choose(ra, [0, 1, 2]), vkopf.choose(rb, [0, 1, 2])
     storage, lifecycle = c.get('storage', 'smart'), c.get('lifecycle', 'all_at_once')
     obj = base_body()
@@ -230,7 +231,7 @@ def h_loop(o0: int, o1: int, o2: int, p0: int, p1: int, s0: int, s1: int, s2: in
     vkopf.begin_path()
     c = vkopf.cell()
     s0, s1 = vkopf.pin('s0', s0), vkopf.pin('s1', s1)
-    o0 = vkopf.pin('o0', o0)
+    o0, o1 = vkopf.pin('o0', o0), vkopf.pin('o1', o1)
     n = c.get('n', 3)
     steps = [s0, s1, s2][:n]
     if c.get('handlers') != 'subhandlers' and 4 in (o0, o1, o2):
@@ -295,25 +296,31 @@ def obligations():
     K = [0, 1, 2, 3]
     for storage in ('smart', 'status', 'annotations'):
         for lifecycle in ('all_at_once', 'one_by_one', 'asap'):
-            obs += split(Ob('h_step', {'storage': storage, 'lifecycle': lifecycle}, tiers=('thorough',), timeout=1500, path_timeout=200),
-                         ka=K, kb=K)
+            if (storage, lifecycle) in (('smart', 'all_at_once'), ('status', 'one_by_one'), ('annotations', 'asap')):
+                obs += split(Ob('h_step', {'storage': storage, 'lifecycle': lifecycle}, tiers=('thorough',), timeout=1500, path_timeout=200),
+                             ka=K, kb=K, base=[0, 1, 2])
     # quick: a sample of the stored-state cells (the rest is in the thorough tier)
-    for (ka, kb) in ((0, 1), (1, 1), (1, 2), (2, 3)):
-        obs.append(Ob('h_step', {'storage': 'smart', 'lifecycle': 'all_at_once', 'pin': {'ka': ka, 'kb': kb}}, tiers=('quick',),
-                      timeout=900, path_timeout=200))
-    for (ka, kb) in ((1, 0), (0, 2)):
-        obs.append(Ob('h_step', {'storage': 'status', 'lifecycle': 'one_by_one', 'pin': {'ka': ka, 'kb': kb}}, tiers=('quick',),
-                      timeout=900, path_timeout=200))
+    # (ka, kb, base, listed, da, db, ob): retries and the outcome of the first handler stay symbolic
+    for (ka, kb, base, listed, da, db, ob) in ((0, 1, 0, False, 0, 1, 0), (1, 1, 0, False, 1, 2, 1), (1, 2, 0, True, 0, 0, 0),
+                                               (2, 3, 0, False, 0, 0, 0), (2, 2, 2, False, 0, 0, 0), (1, 0, 1, True, 2, 0, 3),
+                                               (0, 0, 0, False, 0, 0, 2)):
+        obs.append(Ob('h_step', {'storage': 'smart', 'lifecycle': 'all_at_once',
+                                 'pin': {'ka': ka, 'kb': kb, 'base': base, 'listed': listed, 'da': da, 'db': db, 'ob': ob}},
+                      tiers=('quick',), timeout=600, path_timeout=200))
+    for (ka, kb, base, listed, da, db, ob) in ((1, 0, 0, False, 1, 0, 0), (0, 2, 0, False, 0, 0, 0)):
+        obs.append(Ob('h_step', {'storage': 'status', 'lifecycle': 'one_by_one',
+                                 'pin': {'ka': ka, 'kb': kb, 'base': base, 'listed': listed, 'da': da, 'db': db, 'ob': ob}},
+                      tiers=('quick',), timeout=600, path_timeout=200))
     obs.append(Ob('h_step', {'storage': 'smart', 'lifecycle': 'all_at_once'}, tiers=('quick', 'thorough'), timeout=600, twins=['invoked', 'closed'], main=False))
     # closed loop
-    for (s0, o0) in ((0, 1), (3, 0), (1, 3), (2, 1), (4, 0)):
-        obs.append(Ob('h_loop', {'storage': 'smart', 'lifecycle': 'all_at_once', 'handlers': 'one_create', 'n': 2, 'pin': {'s0': s0, 'o0': o0}},
-                      tiers=('quick',), timeout=900, path_timeout=300))
+    for (s0, s1, o0) in ((0, 0, 1), (3, 0, 0), (1, 2, 3), (2, 1, 1), (4, 3, 0)):
+        obs.append(Ob('h_loop', {'storage': 'smart', 'lifecycle': 'all_at_once', 'handlers': 'one_create', 'n': 2,
+                                 'pin': {'s0': s0, 's1': s1, 'o0': o0}}, tiers=('quick',), timeout=600, path_timeout=300))
     obs.append(Ob('h_loop', {'storage': 'smart', 'lifecycle': 'all_at_once', 'handlers': 'one_create', 'n': 2}, tiers=('quick', 'thorough'),
                   timeout=600, twins=['all_finished', 'killed'], main=False))
-    for o0 in (0, 4):
-        obs.append(Ob('h_loop', {'storage': 'smart', 'lifecycle': 'all_at_once', 'handlers': 'subhandlers', 'n': 1, 'pin': {'o0': o0}},
-                      tiers=('quick',), timeout=900, path_timeout=300))
+    for (o0, o1) in ((0, 4), (0, 0), (4, 0)):
+        obs.append(Ob('h_loop', {'storage': 'smart', 'lifecycle': 'all_at_once', 'handlers': 'subhandlers', 'n': 1, 'pin': {'o0': o0, 'o1': o1, 's0': 0}},
+                      tiers=('quick',), timeout=600, path_timeout=300))
     S, O = [0, 1, 2, 3, 4], [0, 1, 2, 3]
     obs += split(Ob('h_loop', {'storage': 'smart', 'lifecycle': 'all_at_once', 'handlers': 'one_create', 'n': 2},
                     tiers=('thorough',), timeout=1800, path_timeout=300), s0=S, o0=O)
